@@ -14,7 +14,8 @@ CLASSES = {
     "tuple2": "(7;8)", "tuple3": "(7;8;9)", "bracketed": "[a, b]", "dict": {"a": 1},
     "datetime_tz": dt.datetime(2020, 1, 2, 12, 30, 45, tzinfo=dt.timezone(dt.timedelta(hours=2))),
     "time_tz": dt.time(12, 30, 45, tzinfo=dt.timezone(dt.timedelta(hours=-5))), "inf": float("inf"), "bigint": 2 ** 70,
-    "s_int_ws": " 12 ", "s_float_exp": "1e3", "tuple2e": "(1;)", "tuple3e": "(x;;)",      # tuples with empty components
+    "s_int_ws": " 12 ", "s_float_exp": "1e3",
+    "s_date_early": "0476-09-04", "date_early": dt.date(476, 9, 4), "s_datetime_early": "0987-06-05 01:02:03", "datetime_early": dt.datetime(987, 6, 5, 1, 2, 3), "tuple2e": "(1;)", "tuple3e": "(x;;)",      # tuples with empty components
     "none": None, "empty": "", "elist": [], "edict": {},
     "list_int": [5, 6], "list_str": ["x", "y"], "list_mixed": [1, "a"], "list_s_int": ["5", "6"],
     "list_tuple2": ["(1;2)", "(3;4)"], "list_tuple2p": ["(1;2)", "(f(x);3)"], "list_tuple23": ["(1;2)", "(1;2;3)"],
@@ -140,7 +141,20 @@ def replay(t):
     if got["dtype"] != t["pre"]["d"] or got["n"] != t["pre"]["n"]:
         raise C.MachineryError("could not build pre-state %r: %r" % (t["pre"], got))
     rec, _ = one(p, t["op"], k)
+    rec["cfg"] = "plain"
     yield rec
+    # the same step in another configuration: the Property carries a values cardinality that its number of values
+    # violates (a cardinality is never enforced) and the process turns warnings into errors (python -W error); insert is
+    # left out because it warns by design about an index beyond the end
+    if t["op"]["name"] not in ("insert", "ctor"):
+        import warnings
+        p = build(t["pre"], k)
+        p.val_cardinality = (t["pre"]["n"] + 2, None)
+        with warnings.catch_warnings():
+            warnings.simplefilter("error")
+            rec, _ = one(p, t["op"], k)
+        rec["cfg"] = "cardinality-violated,warnings-as-errors"
+        yield rec
 
 
 # ---- H-binding: random operation sequences on ONE evolving Property ----
@@ -151,7 +165,8 @@ def history_cases(n_hist, depth, rng):
 
 SC = ["int", "int0", "negint", "float_i", "float_f", "true", "false", "str", "text", "s_int", "s_float", "s_bool",
       "s_date", "s_time", "s_datetime", "date", "time", "time_us", "datetime", "datetime_us", "tuple2", "tuple3",
-      "bracketed", "dict", "none", "empty", "elist", "edict", "datetime_tz", "time_tz", "inf", "bigint", "s_int_ws", "s_float_exp", "tuple2e", "tuple3e"]
+      "bracketed", "dict", "none", "empty", "elist", "edict", "datetime_tz", "time_tz", "inf", "bigint", "s_int_ws", "s_float_exp", "tuple2e", "tuple3e",
+      "s_date_early", "date_early", "s_datetime_early", "datetime_early"]
 LC = ["list_int", "list_str", "list_mixed", "list_s_int", "list_tuple2", "list_tuple2p", "list_tuple23"]
 PC = ["prop_int", "prop_str", "prop_unit"]
 DTS = list(NATIVE)
